@@ -12,8 +12,9 @@
    element (memmove does not clear it, hwloc__free_infos does not reset
    count/array).  hwloc_internal_cpukinds_register writes a new kind into
    slot [newnr] and *adds* to the infos it finds there; if those are stale
-   (count > 0: the array pointer aliases a live kind's array or is freed) the
-   C behaviour is a memory error, which the model reports as [F_STALE]. *)
+   (array != NULL: the pointer aliases a live kind's array or is dangling) the
+   C behaviour is a memory error (shared array reallocated / freed twice),
+   which the model reports as [F_STALE]. *)
 From Coq Require Import String.
 From Coq Require Import List NArith ZArith Bool.
 From HV Require Import Base.BSet Gen.Tables.
@@ -36,13 +37,18 @@ Fixpoint str_eqb (a b : str) : bool :=
 Definition info_eqb (a b : info) : bool := str_eqb (fst a) (fst b) && str_eqb (snd a) (snd b).
 
 (* ---------- kinds, the array, outcomes ---------- *)
-Record kind := K { k_cpuset : bset; k_eff : Z; k_forced : Z; k_rank : Z; k_infos : list info }.
-Definition zero_slot : kind := K bs_empty 0 0 0 [].
-Definition set_cpuset (k : kind) (s : bset) := K s (k_eff k) (k_forced k) (k_rank k) (k_infos k).
-Definition set_eff (k : kind) (e : Z) := K (k_cpuset k) e (k_forced k) (k_rank k) (k_infos k).
-Definition set_forced (k : kind) (f : Z) := K (k_cpuset k) (k_eff k) f (k_rank k) (k_infos k).
-Definition set_rank (k : kind) (r : Z) := K (k_cpuset k) (k_eff k) (k_forced k) r (k_infos k).
-Definition set_infos (k : kind) (l : list info) := K (k_cpuset k) (k_eff k) (k_forced k) (k_rank k) l.
+(* [k_arr] = (infos.array != NULL): hwloc__add_info allocates the array on the
+   first addition; hwloc__tma_dup_infos always allocates one (calloc of
+   [allocated] elements, a unique non-NULL pointer on glibc even for 0). *)
+Record kind := K { k_cpuset : bset; k_eff : Z; k_forced : Z; k_rank : Z; k_infos : list info; k_arr : bool }.
+Definition zero_slot : kind := K bs_empty 0 0 0 [] false.
+Definition set_cpuset (k : kind) (s : bset) := K s (k_eff k) (k_forced k) (k_rank k) (k_infos k) (k_arr k).
+Definition set_eff (k : kind) (e : Z) := K (k_cpuset k) e (k_forced k) (k_rank k) (k_infos k) (k_arr k).
+Definition set_forced (k : kind) (f : Z) := K (k_cpuset k) (k_eff k) f (k_rank k) (k_infos k) (k_arr k).
+Definition set_rank (k : kind) (r : Z) := K (k_cpuset k) (k_eff k) (k_forced k) r (k_infos k) (k_arr k).
+(* infos after hwloc__cpukind_add_infos: the array exists as soon as one pair was added *)
+Definition set_infos (k : kind) (l : list info) :=
+  K (k_cpuset k) (k_eff k) (k_forced k) (k_rank k) l (k_arr k || (length (k_infos k) <? length l)%nat).
 
 Record state := St { kinds : list kind; tail : list kind }.
 Definition init_state : state := St [] [].
@@ -107,11 +113,10 @@ Fixpoint reg_loop (flags : N) (forced : Z) (infos : option (list info))
       match tl with
       | [] => LFatal F_OOB
       | slot :: tl' =>
-        match k_infos slot with
-        | _ :: _ => LFatal F_STALE
-        | [] =>
+        if k_arr slot then LFatal F_STALE
+        else
           let nc := bs_inter cs (k_cpuset k) in
-          let nk := K nc UNKNOWN forced (k_rank slot)
+          let nk := set_infos (K nc UNKNOWN forced (k_rank slot) (k_infos slot) false)
                       (add_infos_opt (add_infos (k_infos slot) (k_infos k)) infos) in
           let k' := set_cpuset k (bs_diff (k_cpuset k) nc) in
           let cs' := bs_diff cs nc in
@@ -120,7 +125,6 @@ Fixpoint reg_loop (flags : N) (forced : Z) (infos : option (list info))
                | LOk r n c t => LOk (k' :: r) (nk :: n) c t
                | LFatal f => LFatal f
                end
-        end
       end
     | B_CONTAINS | B_EQUAL =>
       let k1 := set_infos k (add_infos_opt (k_infos k) infos) in
@@ -155,11 +159,10 @@ Definition internal_register (st : state) (cs : bset) (forced : Z)
       else match tl with
       | [] => IFatal F_OOB
       | slot :: tl' =>
-        match k_infos slot with
-        | _ :: _ => IFatal F_STALE
-        | [] => IOk (St (olds ++ news ++
-                     [K cs' UNKNOWN forced (k_rank slot) (add_infos_opt (k_infos slot) infos)]) tl')
-        end
+        if k_arr slot then IFatal F_STALE
+        else IOk (St (olds ++ news ++
+                      [set_infos (K cs' UNKNOWN forced (k_rank slot) (k_infos slot) false)
+                                 (add_infos_opt (k_infos slot) infos)]) tl')
       end
     end
   end.
@@ -315,7 +318,8 @@ Definition restrict_state (env : option str) (st : state) (topo : bset) : state 
   match stales with [] => st' | _ :: _ => rank_state env st' end.
 
 (* ---------- dup, XML export + import ---------- *)
-Definition dup_state (st : state) : state := St (kinds st) [].
+Definition dup_state (st : state) : state :=
+  St (map (fun k => K (k_cpuset k) (k_eff k) (k_forced k) (k_rank k) (k_infos k) true) (kinds st)) [].
 
 Fixpoint xml_import (st : state) (ks : list kind) : fatal + state :=
   match ks with
